@@ -192,8 +192,10 @@ func (c *c14) scenario(base *valWorld, cls planClass, maxVals uint32, execs []st
 	authProbe := func(when string, allowed []string, clause, sg string) {
 		for _, x := range candidates {
 			ok := false
+			xb, _ := sdk.AccAddressFromBech32(x)
 			for _, a := range allowed {
-				ok = ok || a == x
+				ab, err := sdk.AccAddressFromBech32(a)
+				ok = ok || (err == nil && ab.Equals(xb)) // the list names accounts; how an address is spelled does not matter
 			}
 			pb := w.e.Branch()
 			res := pb.L2.Deliver(pb.DepositMsg(sim.Account{Addr: sdk.MustAccAddressFromBech32(x)}, pb.NextL1Seq(), "l1from", w.e.Users[1].String(), "uinit", math.NewInt(5), nil))
@@ -387,7 +389,8 @@ func checkC14(run *mon.Run, rng *mon.Rand, thorough bool) {
 	classes := []planClass{{"new-operator", "new-key"}, {"new-operator", "other-operators-key"}, {"known-operator", "own-key"}, {"known-operator", "new-key"}, {"known-operator", "other-operators-key"}}
 	e0 := c.bases[0].e
 	execLists := [][]string{{}, {sim.NewAccount("newexec1").String()}, {sim.NewAccount("newexec1").String(), sim.NewAccount("newexec2").String(), sim.NewAccount("newexec3").String()}, {e0.Executors[0].String(), sim.NewAccount("newexec1").String()},
-		{sim.NewAccount("newexec1").String(), sim.NewAccount("newexec2").String(), sim.NewAccount("newexec1").String()}} // the last one names an executor twice
+		{sim.NewAccount("newexec1").String(), sim.NewAccount("newexec2").String(), sim.NewAccount("newexec1").String()}, // names an executor twice
+		{strings.ToUpper(sim.NewAccount("newexec1").String()), sim.NewAccount("newexec2").String()}} // the first one is spelled in bech32's upper case
 	n := 0
 	for bi, b := range c.bases {
 		for _, cls := range classes {
